@@ -8,6 +8,7 @@ Theorems: coq/Props/C16.v.  Streams: G-cond through the real driver (harness/src
          condition met is decided, the declared names are exactly those of the selected world, defines hold;
   meta   the program and its selected world (all unselected arms deleted, selected arms inlined) assemble identically.
 """
+import os
 import vlib
 import c16_gen as G
 
@@ -15,7 +16,8 @@ RULE = ("G-cond: #if/#elif/#else trees to depth 4 (elif chains to length 4) whos
         "declare integer/boolean constants, labels and level-1 children with distinguishable values; conditions over constants "
         "declared before / after / inside other arms, labels, label-dependent and undeclared names, lazy and strict operators, "
         "now and then ill-typed; x 0..3 command-line defines (bare, true/false, decimal, 0x/0b/%/$ literals, negative, "
-        "hierarchical a.c0, last-component-only, labels, undeclared, malformed) through the real driver; "
+        "hierarchical a.c0, last-component-only, labels, undeclared, malformed) through the real driver, the defines standing in the "
+        "first / middle / last of 1..3 `--`-separated output groups or split across them; "
         "plus chains of constants h0 = h1 = ... (1..5 links, forward/backward/shuffled, last link literal / literal expression / "
         "non-static address-free expression / other constant / -d define) feeding an #if/#elif/#else with and without other #if blocks; "
         "non-trivial = distinct (program, defines) with at least one condition that reads a name")
@@ -112,6 +114,19 @@ def directed():
     return cs
 
 
+def show_cmd(d, layout):
+    """the command line harness/src/bin/cond.rs builds for these defines and this group layout"""
+    ng, pl = 1, []
+    if layout:
+        a, b = layout.split(":")
+        ng, pl = int(a), [int(x) for x in b.split(",") if x]
+    out = []
+    for g in range(ng):
+        out += ["main.asm", "-q", "-o", "out.bin"] if g == 0 else ["--", "-f", "symbols" if g % 2 == 1 else "hexstr", "-o", "out%d.txt" % g]
+        out += ["-d" + x for i, x in enumerate(d) if min(pl[i] if i < len(pl) else 0, ng - 1) == g]
+    return "customasm " + " ".join(out)
+
+
 def later_phase_error(model_syms):
     """verdict of the phases after the first loop (not modelled in Coq) for programs of G-cond: a constant still unknown
     after the loop is either m_i = l_i (fine iff the label is declared) or names something undeclared / cyclic (error)"""
@@ -135,8 +150,17 @@ def parse_syms(s):
 def run(chk):
     chk.rule = RULE
     chk.prove()
-    vlib.extraction("ExCond")
-    model = vlib.ocaml_build("cond_driver", ["cond_model"])
+    tie_broken = None
+    try:
+        vlib.extraction("ExCond")
+        model = vlib.ocaml_build("cond_driver", ["cond_model"])
+    except RuntimeError as e:
+        # the tables regenerated from the source no longer fit the model (e.g. the command-line tables of driver.rs): the
+        # tie is broken.  Search for a concrete failing input with the last model that did build (the pinned behaviour).
+        model = os.path.join(vlib.CACHE, "bin", "cond_driver")
+        if not os.path.exists(model):
+            raise
+        tie_broken = " ".join(str(e).split())[:500]
     bins = vlib.harness_build(("debug", "release"))
     known = {f["class"]: f["id"] for f in vlib.known_findings() if f["property"] == "C16" and f["status"] == "known"}
     ncases = 10000 if chk.tier == "quick" else 120000
@@ -157,11 +181,35 @@ def run(chk):
         t, d = G.gen_case(rng)
         cases.append((t, d, "random"))
 
+    # output groups: the defines may stand in any `--`-separated group of the command line (first / middle / last / split);
+    # a define is global wherever it appears, so the oracle is the same: select under the union of ALL defines of the line
+    lrng = chk.rng.fork("groups")
+    layouts = {}
+    variant = [('K', 0, "variant", ('i', 0)), ('O', 0xaa),
+               ('I', ('B', '=', ('v', 0, ["variant"]), ('i', 1)), [('O', 0x11)],
+                [('I', ('B', '=', ('v', 0, ["variant"]), ('i', 2)), [('O', 0x22)], [('O', 0x00)], False)], True), ('O', 0xff)]
+    for ng in (2, 3):
+        for g in range(ng):
+            for dd in (["variant=2"], ["variant=1"], ["nosuch=1"], ["variant=2", "nosuch=1"]):
+                layouts[len(cases)] = "%d:%s" % (ng, ",".join([str(g)] * len(dd)))
+                cases.append((variant, dd, "groups"))
+        for dd, pl in ((["variant=2", "variant=1"], [0, ng - 1]), (["variant=1", "nosuch=1"], [0, ng - 1]), (["nosuch=1", "variant=2"], [0, 1])):
+            layouts[len(cases)] = "%d:%s" % (ng, ",".join(map(str, pl)))
+            cases.append((variant, dd, "groups"))
+    for idx, (t, d, fam) in enumerate(cases):
+        if idx not in layouts and fam in ("random", "chain") and lrng.chance(0.3 if d else 0.05):
+            ng = lrng.range(2, 3)
+            layouts[idx] = "%d:%s" % (ng, ",".join(map(str, sorted(lrng.below(ng) for _ in d))))
+
+    def cmdline(idx):
+        lay = layouts.get(idx)
+        return "\t" + lay if lay else ""
+
     impl_lines, model_lines = [], []
     for idx, (t, d, _) in enumerate(cases):
         optst = "0" if (cases[idx][2].endswith("/nostatic") or (cases[idx][2] == "random" and idx % 4 == 3)) else "1"
         dh = ";".join(vlib.hx(x) for x in d) if d else "-"
-        impl_lines.append("C\t%s\t%s\t%s" % (optst, dh, vlib.hx(G.render(t))))
+        impl_lines.append("C\t%s\t%s\t%s%s" % (optst, dh, vlib.hx(G.render(t)), cmdline(idx)))
         model_lines.append("M\t%s\t%s\t%s" % (optst, dh, G.ser(t)))
     res = {p: vlib.run_lines([bins[p] + "/cond"], impl_lines) for p in ("debug", "release")}
     mres = vlib.run_lines([model], model_lines)
@@ -169,7 +217,8 @@ def run(chk):
     def rep(idx, **kw):
         t, d, fam = cases[idx]
         r = {"program": G.render(t), "defines": d, "tree": G.ser(t), "family": fam,
-             "static_switch": impl_lines[idx].split("\t")[1], "impl": res["debug"][idx], "model": mres[idx]}
+             "static_switch": impl_lines[idx].split("\t")[1], "impl": res["debug"][idx], "model": mres[idx],
+             "groups": layouts.get(idx, "1:"), "command_line": show_cmd(d, layouts.get(idx))}
         r.update(kw)
         return r
 
@@ -319,7 +368,7 @@ def run(chk):
         # ---- metamorphic: the selected world alone
         flat_tree = G.deser_flat(flat)
         dh = ";".join(vlib.hx(x) for x in d) if d else "-"
-        meta_lines.append("C\t%s\t%s\t%s" % (impl_lines[idx].split("\t")[1], dh, vlib.hx(G.render(flat_tree))))
+        meta_lines.append("C\t%s\t%s\t%s%s" % (impl_lines[idx].split("\t")[1], dh, vlib.hx(G.render(flat_tree)), cmdline(idx)))
         meta_idx.append(idx)
         worlds[idx] = world
     mr = vlib.run_lines([bins["debug"] + "/cond"], meta_lines)
@@ -334,6 +383,9 @@ def run(chk):
                 kind="metamorphic", selected_world=vlib.unhx(line.split("\t")[3]), selected_world_result=ans)
     for what, r in corr_viol:
         chk.violation(what, r, found=False)
+    if tie_broken:
+        chk.violation("the extracted model no longer builds against the tables regenerated from the source (streams were run with the last model that built): " + tie_broken,
+                      {"kind": "broken-tie", "error": tie_broken}, found=False)
     chk.count("corr", len(cases), **dist)
     chk.count("spec", len(spec_lines))
     chk.count("meta", nmeta)
@@ -351,11 +403,14 @@ def replay(chk, rep):
     d = r.get("defines") or []
     dh = ";".join(vlib.hx(x) for x in d) if d else "-"
     sw = r.get("static_switch", "1")
-    out = vlib.run_lines([bins["debug"] + "/cond"], ["C\t%s\t%s\t%s" % (sw, dh, vlib.hx(r["program"]))], shards=1)
+    lay = r.get("groups")
+    lay = ("\t" + lay) if lay and not lay.startswith("1:") else ""
+    print("command line: %s" % r.get("command_line"))
+    out = vlib.run_lines([bins["debug"] + "/cond"], ["C\t%s\t%s\t%s%s" % (sw, dh, vlib.hx(r["program"]), lay)], shards=1)
     mo = vlib.run_lines([model], ["M\t%s\t%s\t%s" % (sw, dh, r["tree"])], shards=1)
     print("program:\n%s\ndefines: %s\nimplementation now: %s\nmodel now:          %s\nrecorded impl:      %s\nrecorded model:     %s" % (
         r["program"], d, out[0], mo[0], r.get("impl"), r.get("model")))
     if "selected_world" in r:
-        o2 = vlib.run_lines([bins["debug"] + "/cond"], ["C\t%s\t%s\t%s" % (sw, dh, vlib.hx(r["selected_world"]))], shards=1)
+        o2 = vlib.run_lines([bins["debug"] + "/cond"], ["C\t%s\t%s\t%s%s" % (sw, dh, vlib.hx(r["selected_world"]), lay)], shards=1)
         print("selected world:\n%s\nimplementation now: %s" % (r["selected_world"], o2[0]))
     return 0
